@@ -10,7 +10,7 @@ from pymap.concurrent import Event
 from pymap.config import IMAPConfig
 from pymap.context import socket_info, connection_exit
 from pymap.exceptions import NotAllowedError, NotSupportedError, \
-    CloseConnection
+    CloseConnection, MailboxNotFound
 from pymap.fetch import MessageAttributes
 from pymap.interfaces.login import LoginInterface
 from pymap.interfaces.session import SessionInterface
@@ -288,9 +288,13 @@ class ConnectionState:
         return ResponseOk(cmd.tag, cmd.command + b' completed.'), updates
 
     async def do_close(self, cmd: CloseCommand) -> _CommandRet:
-        if not self.selected.readonly:
-            await self.session.expunge_mailbox(self.selected)
-        self._deselect()
+        try:
+            if not self.selected.readonly:
+                await self.session.expunge_mailbox(self.selected)
+        except MailboxNotFound:
+            pass  # deleted by someone else: nothing left to expunge
+        finally:
+            self._deselect()
         return ResponseOk(cmd.tag, cmd.command + b' completed.'), None
 
     async def do_expunge(self, cmd: ExpungeCommand) -> _CommandRet:
